@@ -197,7 +197,7 @@ fn configure<'a, R: Read, W: Write>(
             let mut b = b.seipd_v1(&mut *rng, s);
             for r in &recipients {
                 let k = keys::get(jstr(r, "key"));
-                let sub = k.public.public_subkeys.first().expect("pool key has an encryption subkey");
+                let sub = k.public.public_subkeys.get(r.get("sub").and_then(|x| x.as_u64()).unwrap_or(0) as usize).expect("pool key has that encryption subkey");
                 if jbool(r, "anon") {
                     b.encrypt_to_key_anonymous(&mut *rng, sub)?;
                 } else {
@@ -217,7 +217,7 @@ fn configure<'a, R: Read, W: Write>(
             let mut b = b.seipd_v2(&mut *rng, s, aead(jstr(&enc, "aead")), chunk_size(ju64(&enc, "chunk")));
             for r in &recipients {
                 let k = keys::get(jstr(r, "key"));
-                let sub = k.public.public_subkeys.first().expect("pool key has an encryption subkey");
+                let sub = k.public.public_subkeys.get(r.get("sub").and_then(|x| x.as_u64()).unwrap_or(0) as usize).expect("pool key has that encryption subkey");
                 if jbool(r, "anon") {
                     b.encrypt_to_key_anonymous(&mut *rng, sub)?;
                 } else {
@@ -602,7 +602,7 @@ pub fn plan_cfg(p: &mut Planner, thorough: bool, allow_expensive_keys: bool) -> 
         .collect();
     let enc_keys: Vec<&str> = keys::pool()
         .iter()
-        .filter(|k| !k.name.starts_with("outsider") && (allow_expensive_keys || k.cheap))
+        .filter(|k| !k.name.starts_with("outsider") && !k.name.starts_with("multisub") && (allow_expensive_keys || k.cheap))
         .filter(|k| k.name != "dsa-v4" || allow_expensive_keys)
         .map(|k| k.name)
         .collect();
